@@ -65,8 +65,38 @@ pub fn run(o: &Opts) {
       out.count("source:utf8-width-class-prefixes");
     }
     srcs.push(String::new());
-    for src in &srcs {
-      let sg = corpus::parse(lang, src);
+    // documents that were EDITED into their text (AstGrep::edit): an ASCII-only text that receives multi-byte characters
+    // (and one that loses them again) must navigate and report positions like any other tree of that text
+    let mut edited: Vec<(String, String, usize, usize, String)> = vec![]; // (final text, base text, position, deleted, inserted)
+    if let Some(s0) = srcs.first().cloned() {
+      let base: String = s0.chars().filter(|c| c.is_ascii()).take(1500).collect();
+      if let Some(p0) = base.find(|c: char| c.is_ascii_alphanumeric()) {
+        let p1 = base[p0..].find(|c: char| !c.is_ascii_alphanumeric()).map(|i| p0 + i).unwrap_or(base.len());
+        for ins in ["é日", "😀x", "ascii_only"] {
+          let fin = format!("{}{}{}", &base[..p0], ins, &base[p1..]);
+          edited.push((fin, base.clone(), p0, p1 - p0, ins.to_string()));
+        }
+        // and the way back: a text with wide characters edited into an ASCII-only one
+        let wide = format!("{}é日{}", &base[..p0], &base[p1..]);
+        edited.push((base.clone(), wide, p0, "é日".len(), base[p0..p1].to_string()));
+      }
+    }
+    let n_plain = srcs.len();
+    for (fin, ..) in &edited {
+      srcs.push(fin.clone());
+    }
+    for (si, src) in srcs.iter().enumerate() {
+      let mut sg = if si < n_plain { corpus::parse(lang, src) } else { corpus::parse(lang, &edited[si - n_plain].1) };
+      if si >= n_plain {
+        let e = &edited[si - n_plain];
+        let ok = std::panic::catch_unwind(std::panic::AssertUnwindSafe(|| sg.edit(ast_grep_core::source::Edit { position: e.2, deleted_length: e.3, inserted_text: e.4.as_bytes().to_vec() }).is_ok())).unwrap_or(false);
+        out.count("source:edited-document");
+        if !ok || sg.source() != src.as_str() {
+          out.checked();
+          out.oracle_fail("", &format!("{lang}: AstGrep::edit fails or leaves another text than the splice"), json!({"stream": "c19-edited", "lang": lang.to_string(), "base": e.1, "position": e.2, "deleted": e.3, "inserted": e.4}));
+          continue;
+        }
+      }
       let root = sg.root();
       let nodes = corpus::all_nodes(root.clone());
       if nodes.len() > 1500 {
